@@ -1,5 +1,6 @@
 //! C09 — glyph outlines written to glyf/loca are the outlines read and drawn back.
 //! See /verif/DESIGN.md §3 "C09".
+mod compdraw;
 mod draw;
 mod gen;
 mod model;
@@ -183,12 +184,15 @@ pub fn run(ctx: &mut Ctx, _args: &Args) {
     ctx.rule = "a glyph is counted when it is non-empty, was accepted by GlyfLocaBuilder::add_glyph, and its slot in the \
         built glyf/loca was decoded by read-fonts (3 paths) and by the harness's independent spec decoder and compared with \
         the input, and its length compared with the canonical shortest encoding (digest of the glyph value); a bezpath is \
-        counted when its unscaled skrifa drawing was compared with the source path (digest of the path)."
+        counted when its unscaled skrifa drawing was compared with the source path (digest of the path); a composite is counted \
+        when its four drawings (FreeType-/HarfBuzz-style, unscaled/scaled) were compared with the reference placement of its \
+        components (digest of the composite and its component glyphs)."
         .into();
     ctx.assumptions = vec![
         "domain: successive point deltas representable in i16 (the first point relative to 0,0), every contour of a simple glyph has >= 1 point, <= 65535 points, composites have >= 1 component".into(),
         "canonical length: 10-byte header + endPts + instructionLength + instructions + optimal run-length coding of the minimal per-point flags + minimal delta bytes (0/1/2), padded to 2 bytes as the builder does".into(),
         "path equality: closed contours compared as cyclic sequences of line/quad segments with exact coordinates (integer inputs, half-integer implied midpoints), zero-length lines ignored".into(),
+        "composite drawing: anchor point indices are in range (base < points of the earlier components of the same composite, so the first component is never point-matched; component < points of the component), as FreeType requires; all glyphs have lsb = xMin; no variations, no hinting".into(),
         "composites with instructions are obtained through CompositeGlyph::read of bytes produced by the harness's own spec encoder (no public constructor sets instructions)".into(),
     ];
     let mut item = 0usize;
@@ -307,6 +311,10 @@ pub fn run(ctx: &mut Ctx, _args: &Args) {
         ctx.count("cases:draw", 1);
         draw::check_draw_case(ctx, &mut rng);
     }
+
+    // ---- 6a. composites (x/y-offset and point-matched components, nested, transformed) drawn in
+    // both path styles, unscaled and scaled, against the reference placement
+    compdraw::workload(ctx, &mut item);
 
     // ---- 6b. extreme sizes: 65535 points in one contour; 32766 one-point contours
     item += 1;
